@@ -248,12 +248,20 @@ func genDigest(t *rapid.T) DigestCase {
 	}
 	if rapid.Bool().Draw(t, "withdirs") {
 		nd := rapid.IntRange(1, 3).Draw(t, "ndirs")
+		if rapid.IntRange(0, 3).Draw(t, "manydirs") == 0 {
+			nd = rapid.SampledFrom([]int{cpu, cpu + 1, 2*cpu + 1}).Draw(t, "ndirs_many")
+		}
 		for i := 0; i < nd; i++ {
 			c.Dirs = append(c.Dirs, rapid.SampledFrom(c04Dirs).Draw(t, "dir"))
 		}
 	}
-	if n > 0 && rapid.IntRange(0, 3).Draw(t, "withdups") == 0 {
-		c.DupOf = append(c.DupOf, perm[rapid.IntRange(0, n-1).Draw(t, "dupidx")])
+	if n > 0 && rapid.IntRange(0, 2).Draw(t, "withdups") == 0 {
+		// one or two extra copies of an entry (so that both even and odd multiplicities occur)
+		d := perm[rapid.IntRange(0, n-1).Draw(t, "dupidx")]
+		c.DupOf = append(c.DupOf, d)
+		if rapid.Bool().Draw(t, "dup_twice") {
+			c.DupOf = append(c.DupOf, d)
+		}
 	}
 	ns := rapid.IntRange(1, 3).Draw(t, "nsteps")
 	anyName := func(label string) string { return rapid.SampledFrom(c04Names).Draw(t, label) }
@@ -341,6 +349,9 @@ func TestC04Affinity(t *testing.T) {
 			}
 			if variant == 2 {
 				l = append(l, c04Dirs[size%len(c04Dirs)])
+			}
+			if variant == 1 && size%3 == 0 {
+				l = append([]string{c04Dirs[size%5], c04Dirs[(size+1)%5]}, l...)
 			}
 			lists = append(lists, l)
 		}
